@@ -681,6 +681,20 @@ theorem lit_forms_consistent :
     Gen.NumTypes.lexRules.length = 12 := by
   decide
 
+/-- **pat_forms_consistent** — literal patterns: a suffixed pattern is typed by its suffix exactly like the
+    expression form and rebuilt at the matching `Prim` variant; an unsuffixed pattern, which `check_pat_int` checks at
+    the scrutinee's integer type, is rebuilt by `tast_builder.rs` at the `Prim` variant of *that* type, by the same
+    parser path (before the fix it was always `Prim::Int32`: `match (x: int8) { 5 => … }` panicked) -/
+theorem pat_forms_consistent :
+    (Gen.NumTypes.patForms.all fun f =>
+      (Gen.NumTypes.litForms.any fun e => e.1 == f.1 && e.2.2 == f.2.2) &&
+      (Gen.NumTypes.builderPat.any fun b => b.1 == f.2.1 && b.2.2.2 == f.2.2 &&
+        Gen.NumTypes.intTypes.any fun r => r.1 == f.2.2 && r.2.2.2.1 == b.2.1 && r.2.1 == b.2.2.1)) = true ∧
+    Gen.NumTypes.patForms.length = 8 ∧
+    (Gen.NumTypes.intTypes.all fun r =>
+      patPrimOf Gen.NumTypes.builderPatUnsuffixed r.1 == some (r.2.2.2.1, r.2.1)) = true := by
+  decide
+
 /-- every numeric type has its `*_to_string` helper, taking a parameter of that Go type -/
 theorem to_string_covers :
     Gen.ToString.helpers.map (fun h => (h.1, h.2.1)) =
